@@ -246,6 +246,10 @@ def merge_actions():
         # the same step declared again with ANOTHER dependency list: the
         # later entry wins
         acts.append(('flowvar', 'steps', path))
+        # ONE call that merges a composite AND loose parts whose keys meet
+        # the composite's nested dictionaries (a re-wired port, a state
+        # for one of its stores)
+        acts.append(('both', 'flat', path))
     return acts
 
 
@@ -258,6 +262,26 @@ def do_merge(target, action, ledger):
         ledger.append((comp, snap(comp), copy.deepcopy(snap(comp))))
         target.merge(composite=comp, path=path)
         return comp
+    if kind == 'both':
+        comp = ProbeComposer({'template': tname}).generate()
+        comp['state'] = {'s': {'x': 5}}
+        ledger.append((comp, snap(comp), copy.deepcopy(snap(comp))))
+        topo = {'p': {'port': ('elsewhere',)}}
+        state = {'s': {'y': 77}}
+        target.merge(composite=comp, topology=copy.deepcopy(topo),
+                     state=copy.deepcopy(state), path=path)
+
+        def over(a, b):
+            out = dict(a)
+            for k, v in b.items():
+                out[k] = over(out[k], v) if isinstance(v, dict) and \
+                    isinstance(out.get(k), dict) else v
+            return out
+        return Composite({
+            'processes': comp['processes'], 'steps': comp['steps'],
+            'flow': comp['flow'],
+            'topology': over(comp['topology'], topo),
+            'state': over(comp['state'], state)})
     if kind == 'flowvar':
         t = TEMPLATES[tname]
         steps = probes.build_tree(copy.deepcopy(t['steps']))
@@ -1033,3 +1057,6 @@ RULE += (
 
 RULE += (
     ' Override isolation also for two processes that hand out ONE schema object (a composite-level override names one of them; the template object itself stays as it was), and for three variables of one process declared with ONE leaf dictionary (an override names one of them). Glob entry: a process counts the children of a glob store that the initial state names - composite, parts, store built with the state, and store + initial_state show them from the first invocation on.')
+
+RULE += (
+    ' Merge action both: ONE merge call hands over a composite together with loose topology and state whose keys meet the composite\'s nested dictionaries - the union holds the loose entries, the merged-in composite stays as it was.')
